@@ -380,6 +380,12 @@ func c05Run(c c05Case) Verdict {
 	if err != nil {
 		return failf("reply-syntax", "replies do not parse: %v (%s)", err, q(rest))
 	}
+	if c.ShuttingDown && len(rs) > 0 && rs[len(rs)-1].Code == 421 && len(rs) < len(p.body.exp) {
+		// a server that is shutting down may end the connections it still
+		// has (421 and goodbye, RFC 5321 3.8); bait was looked for above
+		v.Classes = append(v.Classes, "connection_ended_by_the_shutdown")
+		return v
+	}
 	if earlyErr {
 		// which BDAT command meets the failure depends on where the backend
 		// stopped; framing is what is judged: every marker answered, the
